@@ -10,6 +10,13 @@ import ipaddress
 
 MESSAGE_TYPES = (0x00, 0x01, 0x02, 0x40, 0x41, 0x42, 0x80, 0x81, 0xC0, 0xC1)
 RETURN_CODES = tuple(range(0, 11))
+# headers with a meaning of their own in the specification: (service, method, client, session, interface version,
+# message type, return code): TCP magic cookies (client / server side) and the SD notification
+WELL_KNOWN_HEADERS = (
+    (0xFFFF, 0x0000, 0xDEAD, 0xBEEF, 1, 0x01, 0),
+    (0xFFFF, 0x8000, 0xDEAD, 0xBEEF, 1, 0x02, 0),
+    (0xFFFF, 0x8100, 0x0000, 0x0001, 1, 0x02, 0),
+)
 
 SD_SERVICE = 0xFFFF
 SD_METHOD = 0x8100
